@@ -155,6 +155,11 @@ func (r *renderer) val(v ssa.Value, d int) string {
 		if r.onPath == nil {
 			r.onPath = map[*ssa.Phi]bool{}
 		}
+		// a hand-written index loop `for i := 0; i < len(X); i++` whose index is only stepped by the
+		// loop itself is the same thing as `for i := range X`: rendered as the range index i@X
+		if subj, ok := r.indexLoopSubject(x, d); ok {
+			return "i@" + subj
+		}
 		// a loop-carried variable: named; expanded once (initial value | step), nested
 		// occurrences are just the name
 		if x.Comment != "" && loopCarried(x) {
@@ -1147,4 +1152,50 @@ func isPrivateToFn(p *Program, h, fn *ssa.Function) bool {
 		}
 	}
 	return n > 0
+}
+
+// indexLoopSubject: phi is the index of `for i := 0; i < len(X); i++` — two edges, the constant 0 and
+// phi + 1, and the block's terminating test is phi < len(X); X is rendered.
+func (r *renderer) indexLoopSubject(phi *ssa.Phi, d int) (string, bool) {
+	if len(phi.Edges) != 2 || phi.Comment == "rangeindex" {
+		return "", false
+	}
+	if b, ok := phi.Type().Underlying().(*types.Basic); !ok || b.Info()&types.IsInteger == 0 {
+		return "", false
+	}
+	zero, step := false, false
+	for _, e := range phi.Edges {
+		if k, ok := constInt(e); ok && k == 0 {
+			zero = true
+			continue
+		}
+		if bo, ok := e.(*ssa.BinOp); ok && bo.Op == token.ADD && bo.X == ssa.Value(phi) {
+			if k, ok := constInt(bo.Y); ok && k == 1 {
+				step = true
+			}
+		}
+	}
+	if !zero || !step {
+		return "", false
+	}
+	blk := phi.Block()
+	ifi, ok := blk.Instrs[len(blk.Instrs)-1].(*ssa.If)
+	if !ok {
+		return "", false
+	}
+	cmp, ok := ifi.Cond.(*ssa.BinOp)
+	if !ok || cmp.Op != token.LSS || cmp.X != ssa.Value(phi) {
+		return "", false
+	}
+	ln, ok := cmp.Y.(*ssa.Call)
+	if !ok {
+		return "", false
+	}
+	if bi, ok := ln.Call.Value.(*ssa.Builtin); !ok || bi.Name() != "len" {
+		return "", false
+	}
+	if _, isSlice := ln.Call.Args[0].Type().Underlying().(*types.Slice); !isSlice {
+		return "", false // strings: a range over a string is a different loop (runes)
+	}
+	return r.val(ln.Call.Args[0], d+1), true
 }
